@@ -79,7 +79,7 @@ Definition kryQ (M : list (list Qc)) := kry Qc (mvQ M).
 Lemma initQ_r_len n M b x0 : length M = n -> length b = n -> length (sr (initQ M b x0)) = n.
 Proof.
   intros HM Hb. unfold initQ, cg_init. cbn [sr].
-  rewrite (length_vsub Qc _ _ _ _ _ _ _ _ Qcft). unfold mvQ. rewrite (matvec_length Qc), HM, Hb. apply Nat.max_id.
+  rewrite length_vsub. unfold mvQ. rewrite (matvec_length Qc). unfold CG.vec. rewrite HM, Hb. apply Nat.max_id.
 Qed.
 
 Theorem cgQ_optimal_krylov n M tol xs b x0 m res h h1 s h2 : length M = n -> symQ M -> psdQ M ->
